@@ -491,6 +491,30 @@ def small_integer_cases(draw, tier):
     return case
 
 
+# ------------------------------------------------------------------ default settings on realistic series
+
+
+def default_cells(tier):
+    """The detector with its DEFAULT hyper-parameters (optionally one of them changed) on series of 100-400 samples of the kind
+    users have: noise with level shifts plus a seasonal cycle / drift / rounding / bursts / a plateau / events at the ends /
+    a variance change (strategies.data.realistic_series; deterministic function of the stored seed)."""
+    ns = (100, 220) if tier == "quick" else (100, 160, 220, 320)
+    for seed in range(8 if tier == "quick" else 24):
+        for n in ns:
+            for det in ("CAPA", "MVCAPA"):
+                for variant in ({}, {"maxl": 50}, {"msl": 5}, {"c_scale": 1.0, "p_scale": 1.0})[: 2 if tier == "quick" else 4]:
+                    yield {"seed": 21000 + seed, "n": n + seed, "p": 1 + seed % 3, "detector": det, "coll": "L2Saving", "point": "L2Saving",
+                           "msl": 2, "maxl": 1000, "c_scale": 2.0, "p_scale": 2.0, "c_pen": "combined", "p_pen": "sparse", **variant}
+
+
+def check_default(case):
+    X, kind = D.realistic_series(case["seed"], case["n"], case["p"])
+    X = X - np.median(X, axis=0)  # CAPA's savings are measured from a zero baseline: centred as its documentation asks
+    info = check_builtin(dict({k: v for k, v in case.items() if k not in ("seed", "n", "p")}, X=X))
+    info["classes"] = list(info["classes"]) + [f"data={kind}"]
+    return info
+
+
 # ------------------------------------------------------------------ long series
 
 
@@ -633,6 +657,13 @@ FACETS = [
               "max_segment_length msl+1..8 (binding), collective scales 0.1..1 and point scales 1..4, CAPA and MVCAPA; same exhaustive "
               "reference optimum; non-trivial = >=1 anomaly and savings sub-additive"),
         n_quick=4000, n_thorough=60000, shards_quick=16, shards_thorough=16,
+    ),
+    Facet(
+        name="default_settings", kind="enumerate", enumerate=default_cells, check=check_default, exhaustive=True, time_limit=300,
+        rule=("CAPA / MVCAPA with their default hyper-parameters (L2 savings, msl 2, max_segment_length 1000, scales 2, combined / sparse penalties; "
+              "variants: max_segment_length 50, msl 5, scales 1) on median-centred realistic series of 100-320 samples, p 1..3 (seeded); same exhaustive "
+              "reference optimum; 64 cells (thorough: 768), non-trivial = >=1 anomaly and savings sub-additive"),
+        shards_quick=16, shards_thorough=16, max_samples=1,
     ),
     Facet(
         name="long_series", kind="enumerate", enumerate=long_cells, check=check_long, exhaustive=True, time_limit=900,
